@@ -57,8 +57,30 @@ class P:
                 if self.peek() in ("?", "+"):
                     raise Untranslatable("lazy/possessive quantifier")
                 a = ({"?": "opt", "*": "star", "+": "plus"}[q], a)
-            if self.peek() == "{":
-                raise Untranslatable("counted repetition")
+            while self.peek() == "{":
+                # counted repetition, greedy: a{m} a{m,} a{m,n} -> m copies, then nested optional copies / a star
+                j = self.s.find("}", self.i)
+                body = self.s[self.i + 1:j] if j > 0 else ""
+                import re as _re
+                mm = _re.fullmatch(r"(\d+)(,(\d*))?", body)
+                if not mm:
+                    raise Untranslatable("counted repetition {%s}" % body)
+                lo = int(mm.group(1)); hi = lo if mm.group(2) is None else (None if mm.group(3) == "" else int(mm.group(3)))
+                if lo > 64 or (hi is not None and (hi > 64 or hi < lo)):
+                    raise Untranslatable("counted repetition bounds {%s}" % body)
+                self.i = j + 1
+                if self.peek() in ("?", "+"):
+                    raise Untranslatable("lazy/possessive quantifier")
+                if hi is None:
+                    tail = ("star", a)
+                else:
+                    tail = ("eps",)
+                    for _ in range(hi - lo):
+                        tail = ("opt", a if tail == ("eps",) else ("seq", a, tail))
+                r0 = tail
+                for _ in range(lo):
+                    r0 = a if r0 == ("eps",) else ("seq", a, r0)
+                a = r0
             items.append(a)
         r = ("eps",)
         for a in reversed(items):
